@@ -117,6 +117,29 @@ GenesisReqOk(b, r) ==
     /\ IF Num(world, b) <= LastN THEN r.ds = <<>> /\ r.bnd = 0
        ELSE r.bnd >= 0 /\ r.bnd <= Td(world, b)
 
+\* The request with the random part fixed (no sampled difficulties; boundary variant k) - used by
+\* model checking, where the oracle does not come from a log.
+CanonReq(s, b, k) ==
+    LET st == StartOf(s)
+        base == [on |-> TRUE, last |-> b, skip |-> FALSE, fork |-> FALSE,
+                 startNum |-> st.num, start |-> st.id, bnd |-> st.td, ds |-> <<>>]
+    IN IF Num(world, b) - st.num <= LastN
+       THEN IF RebaseIdx(st, b) = {} THEN base
+            ELSE LET i == CHOOSE j \in RebaseIdx(st, b) : \A q \in RebaseIdx(st, b) : j <= q
+                 IN [base EXCEPT !.startNum = lastN[i][1], !.start = lastN[i][2]]
+       ELSE [base EXCEPT !.bnd = CASE k = 0 -> st.td + 1
+                                   [] k = 1 -> Td(world, b)
+                                   [] OTHER -> (st.td + Td(world, b)) \div 2]
+
+CanonGenesisReq(b, k) ==
+    [on |-> TRUE, last |-> b, skip |-> FALSE, fork |-> TRUE, startNum |-> 0, start |-> Genesis,
+     bnd |-> IF Num(world, b) <= LastN THEN 0 ELSE (IF k = 0 THEN 1 ELSE Td(world, b)), ds |-> <<>>]
+
+\* Oracle o: o.mode = "log": the request is the logged one (o.req[p]); "canon": CanonReq with o.k
+PickReq(o, p, s, b) == IF o.mode = "log" THEN o.req[p] ELSE CanonReq(s, b, o.k)
+PickSkipReq(o, p, s, b) == IF o.mode = "log" THEN o.req[p] ELSE [CanonReq(s, b, o.k) EXCEPT !.skip = TRUE]
+PickGenesisReq(o, p, b) == IF o.mode = "log" THEN o.req[p] ELSE CanonGenesisReq(b, o.k)
+
 (***************************************************************************)
 (* LightClientProtocol::get_last_state_proof for peer p in peer map pm.    *)
 (* Oracle o: o.req[p] = the request built (if any), o.copy[p] = the peer   *)
@@ -128,11 +151,12 @@ GetLastStateProof(pm, p, o) ==
     ELSE IF HasProof(s) /\ s.proved = s.last THEN [pm |-> pm, sent |-> {}, legal |-> TRUE]
     ELSE IF HasReq(s) /\ s.req.last = s.last THEN [pm |-> pm, sent |-> {}, legal |-> TRUE]
     ELSE IF \E q \in PeerNames : HasProof(pm[q]) /\ pm[q].proved = s.last
-    THEN LET q == o.copy[p] IN
+    THEN LET q == IF o.mode = "log" THEN o.copy[p]
+                  ELSE CHOOSE x \in PeerNames : HasProof(pm[x]) /\ pm[x].proved = s.last IN
          [pm |-> [pm EXCEPT ![p] = ReceiveProof(s, ProveStateOf(pm[q])).s], sent |-> {},
           legal |-> q \in PeerNames /\ HasProof(pm[q]) /\ pm[q].proved = s.last]
     ELSE IF ~CanBuild(s, s.last) THEN [pm |-> pm, sent |-> {}, legal |-> TRUE]
-    ELSE LET r == o.req[p] IN
+    ELSE LET r == PickReq(o, p, s, s.last) IN
          [pm |-> [pm EXCEPT ![p] = RequestProof(s, r, now).s],
           sent |-> {GetProofMsg(p, r)},
           legal |-> ReqOk(s, s.last, r)]
@@ -229,6 +253,8 @@ RecvLastState(p, m, o) ==
                      fast == /\ Td(world, s.last) < Td(world, m.b)
                              /\ HasProof(s)
                              /\ IsParentOf(world, s.proved, m.b)
+                             \* the child's chain root must carry the proven parent's total difficulty
+                             /\ Td(world, m.b) = Td(world, s.proved) + Diff(world, m.b)
                  IN IF fast
                     THEN LET cs == ChildState(s, m.b) IN
                          /\ StoreIfHeavier(m.b, Td(world, m.b), cs.lastN)
@@ -251,31 +277,52 @@ RecvLastState(p, m, o) ==
 
 (***************************************************************************)
 (* SendLastStateProof                                                      *)
-(*   m = [last, lastOk, empty, reorg, samples, lastn, chain,               *)
+(*   m = [last, lastOk, empty, nums, chain,                                *)
 (*        match, root, pow, cont, mmr, tau, td]                            *)
-(*   reorg/samples/lastn: heights of the three sections; the headers are   *)
-(*   those of the chain ending in block `chain` (= last for honest ones).  *)
+(*   nums: heights of the returned headers in message order; the headers   *)
+(*   are those of the chain ending in block `chain` (= last for honest     *)
+(*   answers).  The split into reorg / sampled / last-N sections is the    *)
+(*   one check_if_response_is_matched derives from the request.            *)
 (***************************************************************************)
 SectionIds(m, ns) == IdsAt(world, m.chain, ns)
 
+\* [rc, sc, lc]: reorg, sampled and last-N counts as the code computes them
+Split(r, m) ==
+    LET total == Len(m.nums)
+        rc == Cardinality({i \in 1..total : m.nums[i] < r.startNum})
+        TdAt(i) == Td(world, AncAt(world, m.chain, m.nums[i]))
+    IN IF total - rc > LastN
+       THEN LET bc == Cardinality({i \in 1..total : TdAt(i) < r.bnd})
+                ln == total - bc
+            IN IF ln > LastN THEN [rc |-> rc, sc |-> bc - rc, lc |-> ln]
+               ELSE [rc |-> rc, sc |-> total - rc - LastN, lc |-> LastN]
+       ELSE [rc |-> rc, sc |-> 0, lc |-> total - rc]
+
+ReorgNums(r, m) == SubSeq(m.nums, 1, Split(r, m).rc)
+SampleNums(r, m) == LET sp == Split(r, m) IN SubSeq(m.nums, sp.rc + 1, sp.rc + sp.sc)
+LastNNums(r, m) == LET sp == Split(r, m) IN SubSeq(m.nums, sp.rc + sp.sc + 1, Len(m.nums))
+
 \* verify_tau over (first sample, last header of the last-N section); m.tau may override it for
 \* messages that are not chain-derived ("ok" / "fail" / "ban"), "world" = computed here
-TauOf(m) ==
+TauOf(r, m) ==
     IF m.tau # "world" THEN m.tau
-    ELSE IF m.samples = <<>> \/ m.lastn = <<>> THEN "ok"
-    ELSE LET a == AncAt(world, m.chain, m.samples[1])
-             b == AncAt(world, m.chain, m.lastn[Len(m.lastn)])
+    ELSE IF SampleNums(r, m) = <<>> THEN "ok"
+    ELSE LET a == AncAt(world, m.chain, SampleNums(r, m)[1])
+             b == AncAt(world, m.chain, m.nums[Len(m.nums)])
          IN VerifyTau(Ep(world, a), Diff(world, a), Ep(world, b), Diff(world, b))
+
+ContinuousWithStart(r, m) == LastNNums(r, m) = <<>> \/ LastNNums(r, m)[1] = r.startNum
 
 Valid(s, m) ==
     /\ m.match /\ m.root /\ m.pow /\ m.cont /\ m.mmr
-    /\ (m.td \/ m.samples = <<>> \/ ~HasProof(s))
+    \* total difficulty envelope: skipped only when every header from the start block on is shown
+    /\ (m.td \/ (SampleNums(s.req, m) = <<>> /\ ContinuousWithStart(s.req, m)) \/ ~HasProof(s))
 
 \* the last-N headers of the new prove state; [ok, v]
 NewLastHeaders(s, m) ==
-    LET new == SectionIds(m, m.lastn)
+    LET new == SectionIds(m, LastNNums(s.req, m))
         c == Len(new)
-        rg == SectionIds(m, m.reorg)
+        rg == SectionIds(m, ReorgNums(s.req, m))
     IN IF c = LastN THEN [ok |-> TRUE, v |-> new]
        ELSE IF c > LastN THEN [ok |-> TRUE, v |-> SeqTail(new, LastN)]
        ELSE IF HasProof(s)
@@ -283,7 +330,7 @@ NewLastHeaders(s, m) ==
                  IF old = <<>> THEN [ok |-> TRUE, v |-> new]
                  ELSE [ok |-> TRUE, v |-> SeqTail(old, LastN - c) \o new]
        ELSE IF rg = <<>> THEN [ok |-> TRUE, v |-> new]
-       ELSE IF m.samples = <<>> /\ c > 0 /\ IsParentOf(world, rg[Len(rg)], new[1])
+       ELSE IF SampleNums(s.req, m) = <<>> /\ c > 0 /\ IsParentOf(world, rg[Len(rg)], new[1])
             THEN [ok |-> TRUE, v |-> SeqTail(rg, LastN - c) \o new]
        ELSE [ok |-> FALSE, v |-> <<>>]
 
@@ -291,25 +338,6 @@ NewLastHeaders(s, m) ==
 ForkNums(rg) ==
     {Num(world, rg[i]) : i \in {j \in 1..Len(rg) :
         \E k \in 1..Len(lastN) : lastN[k] = <<Num(world, rg[j]), rg[j]>>}}
-
-(***************************************************************************)
-(* Known deviations of the pinned code from the properties (DESIGN.md 6).   *)
-(* Each is a named action enabled only when its id is in cfg.allow; the     *)
-(* strict specification has cfg.allow = {}.                                 *)
-(***************************************************************************)
-\* KF-C05-nosample: in sampling mode (more than last-N blocks missing) a correct answer in which
-\* no requested difficulty selected a block is rejected as "there should be all blocks of
-\* [start, last)" and the honest peer is banned.
-KF_NoSample(p, m) ==
-    LET s == peer[p] IN
-    /\ "KF-C05-nosample" \in cfg.allow
-    /\ s.st # "None" /\ HasReq(s) /\ m.last = s.req.last
-    /\ Valid(s, m) /\ m.samples = <<>> /\ m.lastn # <<>>
-    /\ Num(world, m.last) - s.req.startNum > LastN
-    /\ m.lastn[1] # s.req.startNum
-    /\ out' = Ban({p})
-    /\ UNCHANGED <<world, cfg, now, peer, tip, tipTD, lastN>>
-    /\ PrintT(<<"KNOWN-FINDING", "KF-C05-nosample", p, m.last>>)
 
 RecvProof(p, m, o) ==
     LET s == peer[p] IN
@@ -332,13 +360,13 @@ RecvProof(p, m, o) ==
        ELSE IF ~Valid(s, m)
        THEN \* any failed check: ban, trusted state untouched
             /\ out' = Ban({p}) /\ UNCHANGED <<peer, tip, tipTD, lastN>>
-       ELSE IF ~s.req.skip /\ m.samples # <<>> /\ TauOf(m) = "ban"
+       ELSE IF ~s.req.skip /\ SampleNums(s.req, m) # <<>> /\ TauOf(s.req, m) = "ban"
        THEN \* different compact targets inside one epoch: InvalidCompactTarget
             /\ out' = Ban({p}) /\ UNCHANGED <<peer, tip, tipTD, lastN>>
-       ELSE IF ~s.req.skip /\ m.samples # <<>> /\ TauOf(m) = "fail"
+       ELSE IF ~s.req.skip /\ SampleNums(s.req, m) # <<>> /\ TauOf(s.req, m) = "fail"
        THEN \* ProofRecheckTau: same last header, new samples, tau check skipped next time
             IF CanBuild(s, m.last)
-            THEN LET r == o.req[p] IN
+            THEN LET r == PickSkipReq(o, p, s, m.last) IN
                  /\ ReqOk(s, m.last, [r EXCEPT !.skip = FALSE]) /\ r.skip
                  /\ peer' = [peer EXCEPT ![p] = RequestProof(s, r, now).s]
                  /\ out' = Sent({GetProofMsg(p, r)})
@@ -351,7 +379,7 @@ RecvProof(p, m, o) ==
             THEN \* LongForkAbort: the documented panic; modelled as no step (the trace has a Panic event)
                  FALSE
             ELSE
-            LET ps == [last |-> m.last, lastN |-> lh.v, reorg |-> SectionIds(m, m.reorg)]
+            LET ps == [last |-> m.last, lastN |-> lh.v, reorg |-> SectionIds(m, ReorgNums(s.req, m))]
                 newTd == Td(world, m.last)
                 rg == ps.reorg
             IN IF newTd > tipTD
@@ -443,7 +471,8 @@ ProofOnlyWhenRequested ==
         (HasProof(peer'[p]) /\ peer'[p].proved # peer[p].proved) =>
             \/ HasReq(peer[p]) /\ peer[p].req.last = peer'[p].proved
             \/ \E q \in PeerNames : HasProof(peer[q]) /\ peer[q].proved = peer'[p].proved
-            \/ HasProof(peer[p]) /\ IsParentOf(world, peer[p].proved, peer'[p].proved)
+            \/ /\ HasProof(peer[p]) /\ IsParentOf(world, peer[p].proved, peer'[p].proved)
+               /\ Td(world, peer'[p].proved) = Td(world, peer[p].proved) + Diff(world, peer'[p].proved)
 
 \* C11: a last-state update never discards an existing proof
 LastStateKeepsProof ==
